@@ -20,6 +20,11 @@ pub enum Error {
 pub type FjResult<T> = Result<T, Error>;
 #[derive(Clone, Copy, PartialEq, Eq)]
 pub enum FormatVersionShim { V1, V2, V3 }
+// derive(PartialEq) on a field-less enum compares the variant
+impl vstd::std_specs::cmp::PartialEqSpecImpl for FormatVersionShim {
+    open spec fn obeys_eq_spec() -> bool { true }
+    open spec fn eq_spec(&self, other: &FormatVersionShim) -> bool { *self == *other }
+}
 impl vstd::std_specs::convert::FromSpecImpl<IoError> for Error {
     open spec fn obeys_from_spec() -> bool { true }
     open spec fn from_spec(e: IoError) -> Error { Error::Io(e) }
